@@ -224,12 +224,17 @@ func (st *Settings) Encode() {
 		)
 	}
 
+	// Always sent: the protocol default is 1, so leaving it out when push is
+	// disabled tells the peer that push is allowed.
+	var push byte
 	if st.enablePush {
-		st.rawSettings = append(st.rawSettings,
-			byte(EnablePush>>8), byte(EnablePush),
-			0, 0, 0, 1,
-		)
+		push = 1
 	}
+
+	st.rawSettings = append(st.rawSettings,
+		byte(EnablePush>>8), byte(EnablePush),
+		0, 0, 0, push,
+	)
 
 	if st.maxStreams != 0 {
 		st.rawSettings = append(st.rawSettings,
